@@ -15,6 +15,7 @@ package sdf
 
 import (
 	"fmt"
+	"math"
 	"sync"
 
 	v2 "github.com/deadsy/sdfx/vec/v2"
@@ -22,11 +23,21 @@ import (
 
 //-----------------------------------------------------------------------------
 
+// cacheKey identifies an evaluation point by the bit patterns of its coordinates.
+// A map keyed by the float64 values themselves compares keys with ==, which treats -0 and +0
+// as the same point (an SDF that takes the angle of the point tells them apart) and never
+// finds a NaN again.
+type cacheKey [2]uint64
+
+func newCacheKey(p v2.Vec) cacheKey {
+	return cacheKey{math.Float64bits(p.X), math.Float64bits(p.Y)}
+}
+
 // CacheSDF2 is an SDF2 cache.
 type CacheSDF2 struct {
 	sdf         SDF2
 	mu          sync.Mutex // guards cache, reads and hits: the renderers call Evaluate from many goroutines
-	cache       map[v2.Vec]float64
+	cache       map[cacheKey]float64
 	reads, hits uint
 }
 
@@ -34,7 +45,7 @@ type CacheSDF2 struct {
 func Cache2D(sdf SDF2) SDF2 {
 	return &CacheSDF2{
 		sdf:   sdf,
-		cache: make(map[v2.Vec]float64),
+		cache: make(map[cacheKey]float64),
 	}
 }
 
@@ -50,12 +61,13 @@ func (s *CacheSDF2) Evaluate(p v2.Vec) float64 {
 	s.mu.Lock()
 	defer s.mu.Unlock()
 	s.reads++
-	if d, ok := s.cache[p]; ok {
+	k := newCacheKey(p)
+	if d, ok := s.cache[k]; ok {
 		s.hits++
 		return d
 	}
 	d := s.sdf.Evaluate(p)
-	s.cache[p] = d
+	s.cache[k] = d
 	return d
 }
 
